@@ -135,6 +135,44 @@ def build(tier="quick", seed=0):
     ob("C12.grouped", th_grouped, lambda p: (z3.And(tb(p.value[0]) == z3.And(n1 == n2, s1 == s2), z3.Implies(z3.And(n1 == n2, s1 == s2), hterm(p.value[1]) == hterm(p.value[2])), tb(p.value[3]), tb(p.value[4]) == z3.Not(tb(p.value[0])), z3.Not(tb(p.value[5]))),
                                              f"grouped: == {p.value[0]!r}, reflexive {p.value[3]!r}, != {p.value[4]!r}, grouped == member {p.value[5]!r}"), "grouped")
 
+    # ---- equal descriptors, distinct record classes: the class cache of _generate_record_class may have evicted the first class (lru_cache contract: eviction at any time)
+    def th_evicted():
+        A1 = it.call(RD, ["c12/ev", [("varint", "n"), ("string", "s")]], {})
+        a = it.call(A1, [], {"n": SInt(n1), "s": SStr(s1)})
+        gen = base.g["_generate_record_class"]
+        if getattr(gen, "memo", None) is not None:
+            gen.memo.clear()  # the entry is evicted
+        A2 = it.call(RD, ["c12/ev", [("varint", "n"), ("string", "s")]], {})
+        b = it.call(A2, [], {"n": SInt(n2), "s": SStr(s2), "_generated": a.attrs["_generated"]})
+        return it.compare("Eq", a, b), it.compare("Eq", b, a), it.hash_(a), it.hash_(b), a.cls is b.cls
+
+    ob("C12.eq.def[equal descriptors, distinct record classes]", th_evicted,
+       lambda p: ((not p.value[4]) and z3.And(tb(p.value[0]) == z3.And(n1 == n2, s1 == s2), tb(p.value[1]) == tb(p.value[0]), z3.Implies(z3.And(n1 == n2, s1 == s2), hterm(p.value[2]) == hterm(p.value[3]))),
+                  f"records of EQUAL descriptors whose classes differ (class cache eviction): == {p.value[0]!r} / reversed {p.value[1]!r} (harness built distinct classes: {not p.value[4]})"), "evicted")
+
+    # ---- a grouped record whose member changes after it was hashed: equal records still have equal hashes
+    def th_grouped_mutation():
+        A = it.call(RD, ["c12/ga", [("varint", "n")]], {})
+        B = it.call(RD, ["c12/gb", [("string", "s")]], {})
+        a1 = it.call(A, [], {"n": SInt(n1)})
+        c1 = it.call(B, [], {"s": "c"})
+        g1 = it.call(GR, ["grp", [a1, c1]], {})
+        h_before = it.hash_(g1)
+        it.setattr_(a1, "n", SInt(n2))  # the member is changed directly, not through the grouped record
+        a2 = it.call(A, [], {"n": SInt(n2), "_generated": a1.attrs["_generated"]})
+        g2 = it.call(GR, ["grp", [a2, it.call(B, [], {"s": "c", "_generated": c1.attrs["_generated"]})]], {})
+        eq = it.compare("Eq", g1, g2)
+        h1, h2 = it.hash_(g1), it.hash_(g2)
+        set_ignore(["n"])
+        eq_ign = it.compare("Eq", g1, it.call(GR, ["grp", [it.call(A, [], {"n": SInt(n3), "_generated": a1.attrs["_generated"]}), it.call(B, [], {"s": "c", "_generated": c1.attrs["_generated"]})]], {}))
+        h1i = it.hash_(g1)
+        g3 = it.call(GR, ["grp", [it.call(A, [], {"n": SInt(n3), "_generated": a1.attrs["_generated"]}), it.call(B, [], {"s": "c", "_generated": c1.attrs["_generated"]})]], {})
+        h3i = it.hash_(g3)
+        return eq, h1, h2, eq_ign, h1i, h3i
+
+    ob("C12.grouped[member changed after hashing, ignore scope changed after hashing]", th_grouped_mutation,
+       lambda p: (z3.And(tb(p.value[0]), hterm(p.value[1]) == hterm(p.value[2]), tb(p.value[3]), hterm(p.value[4]) == hterm(p.value[5])), "equal grouped records with different hashes after a member / the ignore configuration changed (a stale cached hash)"), "grouped_mutation")
+
     def th_grouped_ignore():
         A = it.call(RD, ["c12/ga", [("varint", "n"), ("string", "s")]], {})
         a1 = it.call(A, [], {"n": SInt(n1), "s": SStr(s1)})
